@@ -2,7 +2,7 @@
    C06 the code does not satisfy. Each was replayed on the real kv.DB nodes by the harness. *)
 From stdpp Require Import gmap.
 From Coq Require Import NArith ZArith Lia.
-From Synnax Require Import Aspen.KV Aspen.KVJoin Aspen.KVInv Aspen.KVQuiesce.
+From Synnax Require Import Aspen.KV Aspen.KVJoin Aspen.KVInv Aspen.KVQuiesce Aspen.KVObserve.
 Local Open Scope N_scope.
 
 Definition entry_at (w : world) (n k : N) : option op :=
@@ -163,3 +163,17 @@ Lemma recovery_refuted_true :
   entry_at (run true 1 (world0 [1; 2; 3]) rp_prefix) 3 1 = Some (Op 1 2 1 false 11) /\
   entry_at (run true 1 (world0 [1; 2; 3]) (rp_prefix ++ rp_last)) 3 1 = Some (Op 1 1 1 false 10).
 Proof. split; [exact (recovery_split_refuted true)|]. split; vm_compute; reflexivity. Qed.
+
+(* ---------- C13: at most once fails where entries can move down ---------- *)
+(* subscriber 0 on node 3; the lease-path regress of (a); then node 2 gossips (k1, 3, lh 2) again:
+   node 3 accepts it a second time and hands it to the subscriber a second time *)
+Definition c13_script : list step_t := SSub 3 0 false :: lp_prefix ++ lp_last ++ [SRound 2 3 false].
+Definition view_ops (w : world) (n s : N) : list op :=
+  match w_nodes w !! n with
+  | Some nd => match n_subs nd !! s with Some sb => concat (sub_view n nd sb) | None => [] end
+  | None => []
+  end.
+Lemma handed_twice :
+  length (filter (fun o => o = Op 1 3 2 false 23) (view_ops (run true 2 (world0 [1; 2; 3]) c13_script) 3 0)) = 2%nat /\
+  bool_decide (NoDup (pos3 <$> view_ops (run true 2 (world0 [1; 2; 3]) c13_script) 3 0)) = false.
+Proof. vm_compute. split; reflexivity. Qed.
